@@ -35,6 +35,9 @@ def build(g):
             if g[side + p]["present"]:
                 objs[side + p] = mkprop(g[side + p])
                 root.append(objs[side + p])
+                if side == "D" and p == "pb" and len(objs[side + p].values):
+                    # a values cardinality the merge will exceed (a cardinality is never enforced)
+                    objs[side + p].val_cardinality = (None, len(objs[side + p].values))
         if g[side + "s"]["present"]:
             sub = mksec(g[side + "s"])
             objs[side + "s"] = sub
@@ -96,9 +99,13 @@ def replay(g):
                "pre": pre, "post": post, "conv": conv, "round": 1}
         if out != "ok":
             continue
-        # a second merge after the source has grown below its root (history of two merges)
+        # a second merge after the source has grown below its root and a Property of the destination was renamed
+        # (history of two merges with edits in between)
         try:
             grow(objs)
+            for where in [objs["D"]] + list(objs["D"].sections):
+                if len(where.properties):
+                    where.properties[0].name = "was-" + where.properties[0].name
         except Exception:
             continue
         pre, objs = snap(objs, idtok)
